@@ -139,15 +139,18 @@ class SphinxRenderer(DocutilsRenderer):
         path_id = _path_ids[0] if _path_ids else None
 
         potential_path: None | Path = None
-        if self.sphinx_env.srcdir:  # not set in some test situations
-            _, path_str = self.sphinx_env.relfn2path(path_dest, self.sphinx_env.docname)
-            potential_path = Path(path_str)
-
+        is_file = False
         try:
-            is_file = potential_path is not None and potential_path.is_file()
-        except OSError:
-            # e.g. the file name is too long for the file system
-            is_file = False
+            if self.sphinx_env.srcdir:  # not set in some test situations
+                _, path_str = self.sphinx_env.relfn2path(
+                    path_dest, self.sphinx_env.docname
+                )
+                potential_path = Path(path_str)
+                is_file = potential_path.is_file()
+        except (OSError, ValueError):
+            # e.g. the file name is too long for the file system,
+            # or it contains a null byte
+            potential_path = None
 
         if potential_path and is_file:
             docname = self.sphinx_env.path2doc(str(potential_path))
